@@ -38,6 +38,39 @@ class NullLedger(object):
         pass
 
 
+class InfoLedger(object):
+    """Forwards obligations to a ledger but records violations as information only (used for
+    structural sub-facts that are stricter than the property needs)."""
+
+    def __init__(self, led):
+        self.led = led
+
+    def ok(self, *a, **k):
+        return self.led.ok(*a, **k)
+
+    def info(self, *a, **k):
+        return self.led.info(*a, **k)
+
+    def undecided(self, *a, **k):
+        return self.led.undecided(*a, **k)
+
+    def violation(self, rule, construct_key, where, what, expected=None, found=None):
+        self.led.info(rule, construct_key, where, "not as on the pinned tree (informational): " + what)
+
+    def check(self, cond, rule, construct_key, where, what, expected=None, found=None, detail=None):
+        if cond:
+            self.led.ok(rule, construct_key, where, detail)
+        else:
+            self.violation(rule, construct_key, where, what)
+        return cond
+
+    def count(self, *a, **k):
+        return self.led.count(*a, **k)
+
+    def require_min(self, *a, **k):
+        return self.led.require_min(*a, **k)
+
+
 def is_self_attr(node, attr=None):
     return (
         isinstance(node, ast.Attribute)
